@@ -19,6 +19,43 @@ impl System for Sys {
         vt
     }
     fn step(&self, _cfg: &Cfg, vt: &mut Vt, op: &Op, out: Option<&mut Out>) {
+        judged_step(vt, op, out)
+    }
+    fn key(&self, vt: &Vt) -> u128 {
+        fingerprint(vt)
+    }
+}
+
+/// Same oracle from a screen whose rows all differ from their neighbours (so that every
+/// shifted row is a changed row), on tall screens.
+pub struct SysTall;
+
+impl System for SysTall {
+    type St = Vt;
+    fn init(&self, cfg: &Cfg) -> Vt {
+        let mut vt = cfg.build();
+        let mut s = String::new();
+        for r in 0..cfg.rows {
+            s.push_str(&format!("\x1b[{};1H", r + 1));
+            for k in 0..cfg.cols.min(2) {
+                s.push(char::from_u32('A' as u32 + ((r / (1 + 25 * k)) % 26) as u32).unwrap());
+            }
+        }
+        s.push_str("\x1b[H");
+        let _ = vt.feed_str(&s);
+        let _ = vt.feed_str("");
+        vt
+    }
+    fn step(&self, _cfg: &Cfg, vt: &mut Vt, op: &Op, out: Option<&mut Out>) {
+        judged_step(vt, op, out)
+    }
+    fn key(&self, vt: &Vt) -> u128 {
+        fingerprint(vt)
+    }
+}
+
+fn judged_step(vt: &mut Vt, op: &Op, out: Option<&mut Out>) {
+    {
         let pre: Option<Vec<Line>> = out.as_ref().map(|_| vt.view().to_vec());
         let ap = apply(vt, op);
         if let (Some(out), Some(pre)) = (out, pre) {
@@ -54,8 +91,75 @@ impl System for Sys {
             out.obs_hash = Some(crate::obs::hash_obs(&crate::obs::obs(vt)));
         }
     }
-    fn key(&self, vt: &Vt) -> u128 {
-        fingerprint(vt)
+}
+
+/// Every single-row function at every row, and every region function for region
+/// bounds (a, b): all pairs on screens of up to 40 rows, and on taller ones all pairs
+/// with a in {1, 2} or b in {a+1, rows-1, rows} (every b is reached, every a is reached).
+fn alpha_tall(cfg: &Cfg) -> Vec<Op> {
+    let rows = cfg.rows;
+    let mut v: Vec<Op> = vec![];
+    for a in 1..=rows {
+        for tail in ["x", "\x1b[K", "\x1b[J", "\x1b[1J", "\x1b[L", "\x1b[M", "\x1b[P", "\x1b[@", "\x1b[X", "\x1bM", "\n", "\x1b[2Cyz"] {
+            v.push(Op::raw(&format!("\x1b[{};1H{}", a, tail)));
+        }
+        for b in a + 1..=rows {
+            let all_pairs = rows <= 40 || a <= 2 || b == a + 1 || b + 1 >= rows;
+            if !all_pairs {
+                continue;
+            }
+            let r = format!("\x1b[{};{}r", a, b);
+            v.push(Op::raw(&format!("{}\x1b[S", r)));
+            v.push(Op::raw(&format!("{}\x1b[T", r)));
+            v.push(Op::raw(&format!("{}\x1b[{};1H\n", r, b)));
+            v.push(Op::raw(&format!("{}\x1b[{};1H\x1bM", r, a)));
+            v.push(Op::raw(&format!("{}\x1b[{};1H\x1b[L", r, a)));
+            v.push(Op::raw(&format!("{}\x1b[{};2Hxyz", r, b)));
+        }
+    }
+    for s in ["\x1b[?1049h", "\x1b[?47h", "\x1b[2J", "\x1bc", "\x1b#8", "\x1b[!p", "\x1b[?6h\x1b[2;1Hq"] {
+        v.push(Op::raw(s));
+    }
+    for (c2, r2) in [(cfg.cols, rows + 1), (cfg.cols, rows.saturating_sub(1).max(1)), (cfg.cols + 1, rows), (1, rows), (cfg.cols, rows / 2 + 1), (cfg.cols, rows * 2)] {
+        v.push(Op::resize(c2, r2));
+    }
+    v
+}
+
+fn tall_rows(tier: Tier) -> Vec<(usize, usize)> {
+    let rows: Vec<usize> = match tier {
+        Tier::Quick => (5..=18).chain([23, 24, 25, 31, 32, 33, 63, 64, 65, 66, 127, 128, 129, 130]).collect(),
+        Tier::Thorough => (5..=136).chain([191, 192, 193, 255, 256, 257]).collect(),
+    };
+    rows.into_iter().map(|r| (2usize, r)).collect()
+}
+
+fn tall_part(tier: Tier) -> Part<'static, SysTall> {
+    Part {
+        name: "tall-screens",
+        sys: &SysTall,
+        cfgs: cfgs(&tall_rows(tier), &[Some(0)]),
+        alphabet: &alpha_tall,
+        depth: 1,
+        seconds: tier.pick(15.0, 1800.0),
+        validated: true,
+        nontrivial: Some("calls_with_changed_rows"),
+    }
+}
+
+fn tall_part2(tier: Tier) -> Part<'static, SysTall> {
+    Part {
+        name: "tall-screens-depth2",
+        sys: &SysTall,
+        cfgs: match tier {
+            Tier::Quick => cfgs(&[(2, 9), (2, 12)], &[Some(0)]),
+            Tier::Thorough => cfgs(&[(2, 9), (2, 10), (2, 12), (3, 17), (2, 20)], &[Some(0), None]),
+        },
+        alphabet: &alpha_tall,
+        depth: 2,
+        seconds: tier.pick(15.0, 1800.0),
+        validated: true,
+        nontrivial: Some("calls_with_changed_rows"),
     }
 }
 
@@ -114,7 +218,9 @@ pub fn run(ctx: &Ctx) -> Report {
     let p = parts!(ctx.tier);
     run_part(ctx, &mut rep, &p);
     run_part(ctx, &mut rep, &deep_part(ctx.tier));
-    rep.rule = "BFS over op histories; every feed_str/resize transition compares the view before and after the call cell by cell (char + pen) against Changes.lines; non-trivial = calls after which at least one visible row differs".into();
+    run_part(ctx, &mut rep, &tall_part(ctx.tier));
+    run_part(ctx, &mut rep, &tall_part2(ctx.tier));
+    rep.rule = "BFS over op histories; every feed_str/resize transition compares the view before and after the call cell by cell (char + pen) against Changes.lines; non-trivial = calls after which at least one visible row differs; tall-screens: from a screen whose neighbouring rows all differ, 2 columns x 5..130 rows (thorough: every height 5..136 and around 192, 256), every single-row function at every row and every region function (SU, SD, LF on the bottom margin, RI on the top margin, IL, wrap on the bottom margin) for the region bounds listed in DESIGN, screen switches, resets and resizes; depth 2 on 9- and 12-row screens".into();
     rep.assumptions = vec![
         "only cells (char + pen) are compared, not soft-wrap marks (the statement says cells)".into(),
         "a row index that did not exist before the call counts as changed".into(),
@@ -126,6 +232,12 @@ pub fn replay(ctx: &Ctx, v: &Value) -> bool {
     let tier = if v["tier"] == "thorough" { Tier::Thorough } else { Tier::Quick };
     if v["part"] == "alt-resize-deep" {
         return replay_part(ctx, &deep_part(tier), v);
+    }
+    if v["part"] == "tall-screens" {
+        return replay_part(ctx, &tall_part(Tier::Thorough), v);
+    }
+    if v["part"] == "tall-screens-depth2" {
+        return replay_part(ctx, &tall_part2(Tier::Thorough), v);
     }
     let p = parts!(tier);
     replay_part(ctx, &p, v)
